@@ -60,11 +60,18 @@ type RModel struct {
 	bufs   map[*Value]*strings.Builder
 
 	locksHeld   int
+	held        []*Value // mutexes held (sequential model)
+	oncePassed  map[oncePass]bool
 	onceDone    map[*Value]bool
 	onceRunning map[*Value]int
 	syncMaps    map[*Value]*Map
 	pcOf        map[*ssa.Function]int64
 	pcNames     map[int64]string
+}
+
+type oncePass struct {
+	once   *Value
+	thread int
 }
 
 func newRModel(it *Interp) *RModel {
@@ -108,6 +115,8 @@ func (m *RModel) codePointer(fn *ssa.Function) int64 {
 func (m *RModel) resetPath() {
 	m.bufs = map[*Value]*strings.Builder{}
 	m.locksHeld = 0
+	m.held = nil
+	m.oncePassed = nil
 	m.onceDone = nil
 	m.onceRunning = nil
 	m.syncMaps = nil
